@@ -791,6 +791,8 @@ func (g *generator) enterNextFinallyFrame() (canContinue bool, ex *Exception) {
 			}
 			return ex == nil, ex
 		}
+		// closing the iterators runs script code which may have grown (re-allocated) the try stack
+		tf = &vm.tryStack[len(vm.tryStack)-1]
 		if tf.finallyPos >= 0 {
 			vm.sp = int(tf.sp)
 			vm.stash = tf.stash
